@@ -8,7 +8,7 @@ vars == <<lvars, ret, ops, napp>>
 
 Init == LInit /\ ret = << >> /\ ops = [g \in Procs |-> 0] /\ napp = 0
 
-CapChoices(c) == IF c = 0 THEN {1} ELSE {c + 1, 2 * c}
+CapChoices(c) == {c + 1, c + 3}
 
 CallAppend(g) == /\ ops[g] < MaxOps /\ napp < MaxAppends
                  /\ AppendBegin(g, <<g, ops[g]>>)
